@@ -5,7 +5,7 @@
 (* RISC-V registers, PCs, offsets) is one of these; byte limbs keep every     *)
 (* intermediate below 2^20.  BVTest.tla validates every operator exhaustively *)
 (* at W = 8 and on carry-crossing sets at W = 16 against integer arithmetic.  *)
-EXTENDS Integers, Sequences, TLC
+EXTENDS Integers, Sequences, TLC, Bitwise
 
 NB(W) == W \div 8
 Width(a) == Len(a) * 8
@@ -36,15 +36,14 @@ RECURSIVE AddC(_, _, _, _)
 AddC(a, b, i, c) == IF i > Len(a) THEN << >>
                     ELSE LET s == a[i] + b[i] + c IN <<s % 256>> \o AddC(a, b, i + 1, s \div 256)
 Add(a, b) == AddC(a, b, 1, 0)
-Not(a) == [i \in 1..Len(a) |-> 255 - a[i]]
-Neg(a) == AddC(Not(a), Zero(Width(a)), 1, 1)
-Sub(a, b) == AddC(a, Not(b), 1, 1)
+BNot(a) == [i \in 1..Len(a) |-> 255 - a[i]]
+Neg(a) == AddC(BNot(a), Zero(Width(a)), 1, 1)
+Sub(a, b) == AddC(a, BNot(b), 1, 1)
 
-\* ---- bitwise ----
-BitOp(a, b, f(_, _)) == FromBits([k \in 1..Width(a) |-> f(Bit(a, k - 1), Bit(b, k - 1))])
-And(a, b) == BitOp(a, b, LAMBDA x, y : x * y)
-Or(a, b)  == BitOp(a, b, LAMBDA x, y : (x + y) - (x * y))
-Xor(a, b) == BitOp(a, b, LAMBDA x, y : (x + y) % 2)
+\* ---- bitwise (per limb; Bitwise's operators have Java overrides) ----
+BAnd(a, b) == [i \in 1..Len(a) |-> a[i] & b[i]]
+BOr(a, b)  == [i \in 1..Len(a) |-> a[i] | b[i]]
+BXor(a, b) == [i \in 1..Len(a) |-> a[i] ^^ b[i]]
 
 \* ---- comparisons ----
 RECURSIVE LtUFrom(_, _, _)
@@ -55,12 +54,16 @@ LeU(a, b) == a = b \/ LtU(a, b)
 LtS(a, b) == IF IsNeg(a) # IsNeg(b) THEN IsNeg(a) ELSE LtU(a, b)
 LeS(a, b) == a = b \/ LtS(a, b)
 
-\* ---- shifts and rotations by k bits, 0 <= k ----
-Shl(a, k)  == LET b == ToBits(a) W == Width(a) IN FromBits([i \in 1..W |-> IF i - k >= 1 THEN b[i - k] ELSE 0])
-ShrU(a, k) == LET b == ToBits(a) W == Width(a) IN FromBits([i \in 1..W |-> IF i + k <= W THEN b[i + k] ELSE 0])
-ShrS(a, k) == LET b == ToBits(a) W == Width(a) IN FromBits([i \in 1..W |-> IF i + k <= W THEN b[i + k] ELSE b[W]])
-Rotl(a, k) == LET b == ToBits(a) W == Width(a) IN FromBits([i \in 1..W |-> b[((i - 1 - k) % W) + 1]])
-Rotr(a, k) == LET b == ToBits(a) W == Width(a) IN FromBits([i \in 1..W |-> b[((i - 1 + k) % W) + 1]])
+\* ---- shifts and rotations by k bits, 0 <= k (limb moves + intra-limb arithmetic) ----
+Limb(a, i, fill) == IF i < 1 THEN 0 ELSE IF i > Len(a) THEN fill ELSE a[i]
+Shl(a, k)  == LET q == k \div 8  r == k % 8 IN
+              [i \in 1..Len(a) |-> ((Limb(a, i - q, 0) * (2 ^ r)) % 256) + (Limb(a, i - q - 1, 0) \div (2 ^ (8 - r)))]
+ShrFill(a, k, fill) == LET q == k \div 8  r == k % 8 IN
+              [i \in 1..Len(a) |-> (Limb(a, i + q, fill) \div (2 ^ r)) + ((Limb(a, i + q + 1, fill) * (2 ^ (8 - r))) % 256)]
+ShrU(a, k) == ShrFill(a, k, 0)
+ShrS(a, k) == ShrFill(a, k, IF IsNeg(a) THEN 255 ELSE 0)
+Rotl(a, k) == LET W == Width(a)  m == k % W IN IF m = 0 THEN a ELSE BOr(Shl(a, m), ShrU(a, W - m))
+Rotr(a, k) == LET W == Width(a)  m == k % W IN IF m = 0 THEN a ELSE BOr(ShrU(a, m), Shl(a, W - m))
 
 \* ---- counting ----
 RECURSIVE ClzFrom(_, _)
@@ -109,8 +112,8 @@ Trunc(a, W) == SubSeq(a, 1, NB(W))
 ZExt(a, W) == [i \in 1..NB(W) |-> IF i <= Len(a) THEN a[i] ELSE 0]
 SExt(a, W) == [i \in 1..NB(W) |-> IF i <= Len(a) THEN a[i] ELSE (IF IsNeg(a) THEN 255 ELSE 0)]
 \* sign-extend the low `bits` bits of a (bits need not be a multiple of 8) to the width of a
-SExtBits(a, bits) == LET b == ToBits(a) W == Width(a) IN FromBits([i \in 1..W |-> IF i <= bits THEN b[i] ELSE b[bits]])
-ZExtBits(a, bits) == LET b == ToBits(a) W == Width(a) IN FromBits([i \in 1..W |-> IF i <= bits THEN b[i] ELSE 0])
+SExtBits(a, bits) == LET W == Width(a) IN ShrS(Shl(a, W - bits), W - bits)
+ZExtBits(a, bits) == LET W == Width(a) IN ShrU(Shl(a, W - bits), W - bits)
 
 \* ---- text ----
 HexDigit(n) == SubSeq("0123456789abcdef", n + 1, n + 1)
